@@ -13,7 +13,7 @@ META = dict(
         thorough="K<=4, two successive executions with/without counter reset, max_time with a symbolic clock, ftol/xtol testers with symbolic histories",
     ),
     outside=["the wrappers of the individual optimization libraries (SciPy, NLopt, ...): compiled algorithms are replaced by the adversary",
-             "composite/multi-level algorithms", "n_processes>1", "user functions that raise (only the budget clause would apply)"],
+             "composite/multi-level algorithms", "n_processes>1", "user functions that raise inside an OPTIMIZATION run (only the budget clause would apply); a DOE sample whose objective raises ValueError is covered (doe_raise: left out, the others still evaluated in order)"],
     stubs=["driver algorithm -> adversarial _run", "hash->const for symbolic keys", "hashable_ndarray.np_array keeps SymArray", "stop_criteria.average/allclose -> element-wise symbolic versions (same formulas)", "clock -> symbolic non-decreasing instants (max_time configs)",
            "unit sampler of the stub DOE -> symbolic matrix in [0,1]"],
     assumptions=["requested points lie in [0,1] (normalized) / inside the bounds", "objective/constraint values are uninterpreted symbols of the physical point or NaN as chosen by the solver"],
@@ -289,6 +289,60 @@ def h_doe(ctx, cfg):
     ctx.observe("n_entries", [float(len(items))])
 
 
+def h_doe_raise(ctx, cfg):
+    """A sequential DOE whose objective raises ValueError at one (solver-chosen) sample: the documented behaviour is to log the error,
+    leave that sample out and go on, so every OTHER generated sample is still evaluated once and recorded in generation order."""
+    from gemseo.algos.design_space import DesignSpace
+    from gemseo.algos.optimization_problem import OptimizationProblem
+    from gemseo.core.mdo_functions.mdo_function import MDOFunction
+
+    install_hash_stub(ctx)
+    install_np_array_stub(ctx)
+    S = cfg["S"]
+    raise_at = ctx.choice("raise_at", S + 1)  # S: no sample raises
+    ds = DesignSpace()
+    ds.add_variable("x", size=1, lower_bound=-1.0, upper_bound=3.0, value=1.0)
+    F = ctx.uf("f", 1)
+    calls = []
+    rows = []
+
+    def fun(x):
+        xs = elems(x)
+        calls.append(xs)
+        if raise_at < S and ctx.symbolic is not None and _same_point(ctx, xs, [-1.0 + 4.0 * rows[raise_at][0]]):
+            raise ValueError("the user function fails at this sample")
+        return ctx.array([F(*xs)])
+
+    problem = OptimizationProblem(ds)
+    problem.objective = MDOFunction(fun, "f")
+
+    def sampler(design_space):
+        for k in range(S):
+            r = [ctx.real(f"u{k}_0")]
+            ctx.assume(ctx.and_(ctx.le(0.0, r[0]), ctx.le(r[0], 1.0)))
+            for q in rows:  # pairwise distinct samples (coinciding samples: harness doe)
+                ctx.assume(ctx.not_(ctx.eq(r[0], q[0])))
+            rows.append(r)
+        return ctx.array(rows)
+
+    lib = _stub_doe_library(sampler)
+    lib.execute(problem, enable_progress_bar=False, log_problem=False)
+    phys = [[-1.0 + 4.0 * r[0]] for r in rows]
+    items = db_items(problem.database)
+    good = [k for k in range(S) if k != raise_at]
+    for k in range(S):
+        n_calls = sum(1 for c in calls if _same_point(ctx, c, phys[k]))
+        ctx.check(f"raise_at={raise_at}: sample {k} passed once to the objective (passed {n_calls} times)", ctx.true() if n_calls == 1 else ctx.false())
+    ctx.check(f"raise_at={raise_at}: the database holds the {len(good)} samples that did not raise (holds {len(items)})", ctx.true() if len(items) == len(good) else ctx.false())
+    for e, ((key, _), k) in enumerate(zip(items, good)):
+        ctx.check(f"raise_at={raise_at}: entry {e} is sample {k} (generation order)", ctx.eq(elems(key)[0], phys[k][0]))
+    ctx.observe("n_entries", [float(len(items))])
+
+
+def _same_point(ctx, a, b):
+    return _decided(ctx, ctx.and_(*[ctx.eq(x, y) for x, y in zip(a, b)]))
+
+
 def _decided(ctx, formula):
     """Truth value of a formula already decided by the path condition (forks otherwise, which is sound)."""
     if ctx.symbolic:
@@ -330,7 +384,10 @@ def configs(tier):
     for S in ((2, 3) if quick else (2, 3, 4)):
         out.append(("doe", dict(n=1, S=S)))
     out.append(("doe", dict(n=2, S=2)))
+    out.append(("doe_raise", dict(S=3)))
+    if not quick:
+        out.append(("doe_raise", dict(S=4)))
     return out
 
 
-HARNESSES = {"budget": h_budget, "two_runs": h_two_runs, "max_time": h_max_time, "doe": h_doe}
+HARNESSES = {"budget": h_budget, "two_runs": h_two_runs, "max_time": h_max_time, "doe": h_doe, "doe_raise": h_doe_raise}
